@@ -592,7 +592,19 @@ pub fn corr(run: &mut Run) {
         if signed && w < 2 {
             w = 2;
         }
-        let (da, db) = gen_dims_a(&mut rng);
+        let (mut da, mut db) = gen_dims_a(&mut rng);
+        if i % 7 == 3 {
+            // all dimensions equal to the bit width (the shape is invariant under moving the bit axis):
+            // [w,w] or [w,w,w] against the same shape, a single string or a row of strings
+            w = *rng.pick(&[2u64, 3, 4, 5, 8]);
+            let r = 1 + rng.below(2) as usize;
+            da = vec![w; r];
+            db = match rng.below(3) { 0 => vec![w; r], 1 => vec![], _ => vec![1] };
+            if rng.chance(1, 2) {
+                std::mem::swap(&mut da, &mut db);
+            }
+            run.count("A:all-dims-equal-width");
+        }
         let mut sa = da.clone();
         sa.push(w);
         let mut sb = db.clone();
